@@ -207,6 +207,10 @@ class ESSearch(ABC):
                     * self.scale
                 )
 
+        if us.shape[0] == 0:
+            # no candidate survived the filters: report an empty search set
+            return us, z
+
         return us[0], z[0]
 
 
